@@ -94,9 +94,19 @@ def opreturn_expected(chain, coin, start=0, end=None):
                 txt = script_ref.opreturn_text(o.script, coin)
                 if txt is None:
                     continue
-                prefix = "height: %-9d txid: %s    data: " % (h, t.txid_hex)
+                prefix = OPRETURN_CANON % (h, t.txid_hex)
                 lines.append((prefix, txt))
     return lines
+
+
+# An opreturn line carries the block height, the txid and the payload. The comparison is done on a canonical prefix so
+# that the amount of padding between the three fields does not matter (the property does not pin it).
+OPRETURN_CANON = "height: %d txid: %s data: "
+_OPRETURN_LINE = re.compile(r"(?m)^height:[ \t]*(\d+)[ \t]+txid:[ \t]*([0-9a-f]{64})[ \t]+data: ")
+
+
+def canon_opreturn(text):
+    return _OPRETURN_LINE.sub(lambda m: OPRETURN_CANON % (int(m.group(1)), m.group(2)), text)
 
 
 def strip_log(stdout):
